@@ -38,6 +38,10 @@ package keeper
 //@        res_GetEpochInfo_0.CurrentEpoch > res_GetTaskInfo_0.StartingEpoch + res_GetTaskInfo_0.TaskResponsePeriod + res_GetTaskInfo_0.TaskStatisticalPeriod &&
 //@        res_GetEpochInfo_0.CurrentEpoch <= res_GetTaskInfo_0.StartingEpoch + res_GetTaskInfo_0.TaskResponsePeriod + res_GetTaskInfo_0.TaskStatisticalPeriod + res_GetTaskInfo_0.TaskChallengePeriod
 //@   before[C20.rrc.once]   SetTaskChallengedInfo requires !res_IsExistTaskChallengedInfo_0
+// C10 (challenges bind to the calling contract's own address and require a listed owner): the caller a challenge is
+// recorded for is a listed owner of the AVS the task contract belongs to. KNOWN FINDING F-OWN-1: the code makes no such
+// comparison (see /verif/known_findings.json).
+//@   before[C10.rrc.owner]  SetTaskChallengedInfo requires contains(res_GetAVSInfoByTaskAddress_0.AvsOwnerAddress, params.CallerAddress)
 
 // C20: the task id comes from the counter of the task contract the task is stored under; only a listed owner of the AVS
 // that owns the task contract creates tasks
